@@ -199,6 +199,12 @@ theorem inv (p : Nat) (hp : p = 4 ∨ p = 8) : ∀ t, padFree (gcTarget p) t = t
     exact ⟨by simpa [toRaw, llSA, stdSA] using ih.align_eq, by simpa [toRaw, llSA, stdSA, extra] using ih.size_eq,
       by simpa [stdSA] using ih.align_pos, by simpa [stdSA] using ih.align_dvd_ptr,
       by simpa [stdSA] using ih.align_dvd_size, by simpa [extra] using ih.ptr_dvd_extra⟩
+  | .alias t, h => by
+    have h' : padFree (gcTarget p) t = true ∧ extra (gcTarget p) t = 0 := by simpa [padFree] using h
+    have ih := inv p hp t h'.1
+    exact ⟨by simpa [toRaw, stdSA] using ih.align_eq, by simpa [toRaw, stdSA, extra, h'.2] using ih.size_eq,
+      by simpa [stdSA] using ih.align_pos, by simpa [stdSA] using ih.align_dvd_ptr,
+      by simpa [stdSA] using ih.align_dvd_size, by simp [extra]⟩
   | .array n e, h => by
     have ih := inv p hp e (by simpa [padFree] using h)
     have hsz : stdArraySize (gcTarget p) n (stdSA (gcTarget p) e).1 (stdSA (gcTarget p) e).2 = (stdSA (gcTarget p) e).1 * n := by
@@ -291,6 +297,7 @@ theorem toRaw_idem : ∀ t, toRaw (toRaw t) = toRaw t
   | .array n e => by simp [toRaw, toRaw_idem e]
   | .struct fs => by simp [toRaw, toRaws_idem fs]
   | .named t => by simp [toRaw, toRaw_idem t]
+  | .alias t => by simp [toRaw, toRaw_idem t]
 theorem toRaws_idem : ∀ fs, toRaws (toRaws fs) = toRaws fs
   | .nil => by simp [toRaws]
   | .cons t fs => by simp [toRaws, toRaw_idem t, toRaws_idem fs]
@@ -313,6 +320,11 @@ theorem goOffsets_eq (p : Nat) (hp : p = 4 ∨ p = 8) : ∀ t, padFree (gcTarget
     goOffsets (gcTarget p) t = (if isStruct t then llOffsets (gcTarget p) (toRaw t) else [])
   | .named t, h => by
     have ih := goOffsets_eq p hp t (by simpa [padFree] using h)
+    show goOffsets (gcTarget p) t = (if isStruct t then llOffsets (gcTarget p) (toRaw t) else [])
+    exact ih
+  | .alias t, h => by
+    have h' : padFree (gcTarget p) t = true ∧ extra (gcTarget p) t = 0 := by simpa [padFree] using h
+    have ih := goOffsets_eq p hp t h'.1
     show goOffsets (gcTarget p) t = (if isStruct t then llOffsets (gcTarget p) (toRaw t) else [])
     exact ih
   | .struct fs, h => by
@@ -389,6 +401,9 @@ theorem abi_inv (p : Nat) (hp : p = 4 ∨ p = 8) (fw : Nat) (ba : Basic → Nat)
   | .named t, h => by
     have ih := abi_inv p hp fw ba hba t (by simpa [padFree, toRaw] using h)
     simpa [toRaw, abiSizeG, abiAlignG, llSA] using ih
+  | .alias t, h => by
+    have ih := abi_inv p hp fw ba hba t (by simpa [toRaw] using h)
+    simpa [toRaw] using ih
   | .array n e, h => by
     have ih := abi_inv p hp fw ba hba e (by simpa [padFree, toRaw] using h)
     simp only [toRaw, abiSizeG, abiAlignG, llSA, ih.1, ih.2, and_self]
@@ -581,6 +596,11 @@ theorem rinv (p : Nat) (hp : p = 4 ∨ p = 8) : ∀ t, padFree (gcTarget p) t = 
     have ih := rinv p hp t (by simpa [padFree] using h)
     exact ⟨by simpa [toRaw, padFree] using ih.pf, by simpa [toRaw, stdSA, extra] using ih.size,
       by simpa [toRaw, stdSA] using ih.align, by simpa [stdSA, extra] using ih.pos⟩
+  | .alias t, h => by
+    have h' : padFree (gcTarget p) t = true ∧ extra (gcTarget p) t = 0 := by simpa [padFree] using h
+    have ih := rinv p hp t h'.1
+    exact ⟨by simpa [toRaw] using ih.pf, by simpa [toRaw, stdSA, extra, h'.2] using ih.size,
+      by simpa [toRaw, stdSA] using ih.align, by simp [extra]⟩
   | .array n e, h => by
     have ih := rinv p hp e (by simpa [padFree] using h)
     have hsz : ∀ z a, stdArraySize (gcTarget p) n z a = z * n := by
@@ -729,6 +749,25 @@ theorem padFree_toRaw (p : Nat) (hp : p = 4 ∨ p = 8) (t : GoType) (h : padFree
     padFree (gcTarget p) (toRaw t) = true := (rinv p hp t h).pf
 
 
+/-! ## per-instance `unsafe.Offsetof` -/
+
+theorem chainOffset_eq_spec : ∀ (ps : List Step) (sel : Nat), chainOffset sel ps = specOffset sel ps
+  | [], sel => by simp [chainOffset, specOffset]
+  | p :: ps, sel => by
+    unfold chainOffset specOffset
+    cases hpe : p.explicit
+    · have ih := chainOffset_eq_spec ps (sel + p.off)
+      simp only [Bool.false_eq_true, if_false, List.takeWhile_cons, hpe, Bool.not_false, if_true, List.map_cons,
+        List.foldl_cons, Nat.zero_add]
+      rw [ih]; unfold specOffset
+      have : ∀ (l : List Nat) (a : Nat), List.foldl (· + ·) a l = a + List.foldl (· + ·) 0 l := by
+        intro l
+        induction l with
+        | nil => intro a; simp
+        | cons x r ihl => intro a; simp only [List.foldl_cons, Nat.zero_add]; rw [ihl (a + x), ihl x]; omega
+      rw [this _ p.off]; omega
+    · simp [hpe]
+
 /-! ## natural C layout -/
 
 theorem wfC_basic {tg : Target} {cmax : Nat} (h : wfC tg cmax = true) (b : Basic) (hb : b ≠ .string) :
@@ -759,6 +798,9 @@ theorem c_inv {tg : Target} {cmax : Nat} (h : wfC tg cmax = true) : ∀ t, isC t
   | .named t, hc => by
     have ih := c_inv h t (by simpa [isC] using hc)
     simpa [toRaw, llSA, cSA] using ih
+  | .alias t, hc => by
+    have ih := c_inv h t (by simpa [isC] using hc)
+    simpa [toRaw, cSA] using ih
   | .struct fs, hc => by
     have hc' : isCs fs = true := by
       simp only [isC, Bool.and_eq_true] at hc; exact hc.2
@@ -792,6 +834,10 @@ theorem c_offsets {tg : Target} {cmax : Nat} (h : wfC tg cmax = true) : ∀ t, i
     (if isStruct t then llOffsets tg (toRaw t) else []) =
       cOffsets tg cmax t
   | .named t, hc => by
+    have ih := c_offsets h t (by simpa [isC] using hc)
+    show (if isStruct t then llOffsets tg (toRaw t) else []) = cOffsets tg cmax t
+    exact ih
+  | .alias t, hc => by
     have ih := c_offsets h t (by simpa [isC] using hc)
     show (if isStruct t then llOffsets tg (toRaw t) else []) = cOffsets tg cmax t
     exact ih
